@@ -57,6 +57,33 @@ func e5Obligations(p *Prog, r *Report, rule string) {
 }
 
 func runC17(p *Prog, r *Report) {
+	{
+		// REQ's blocking SendMsg parks the message in c.sendMsg; the scheduler takes it from
+		// there (and from then on transmits, retains and frees it).  Whether the call failed
+		// is therefore decided by one fact only: is the message still parked?
+		q := NewQ(p, r)
+		R := "C17.11/req-send-outcome"
+		r.Describe(R, "req context.SendMsg reports an error after its wait only while the message is still parked in c.sendMsg (nobody took it): once the scheduler has taken the message the library owns it, and an error return would leave it with the caller as well")
+		sm := q.Fn(R, "protocol/req", "context", "SendMsg")
+		if sm.OK() {
+			waits := sm.Ev("call", "sync.(*Cond).Wait")
+			reach := blockReach(sm.fn)
+			n, bad := 0, ""
+			for _, e := range sm.Ev("return", "") {
+				if len(e.Args) == 0 || e.Args[len(e.Args)-1] == "nil" || len(waits) == 0 || e.Site != nil {
+					continue
+				}
+				if !CanPrecede(reach, waits[0].In, e.In) {
+					continue
+				}
+				n++
+				if !hasAtom(e.Guard, "recv.sendMsg == arg1") {
+					bad = p.InstrPos(e.In) + " returns " + e.Args[len(e.Args)-1] + " under " + strings.Join(e.Guard, "; ")
+				}
+			}
+			r.Check(len(waits) == 1 && n >= 1 && bad == "", R, "error-only-while-parked", sm.Pos(), "every error return after the wait is under c.sendMsg == m", "req SendMsg returns an error although the message may already have been taken by the scheduler ("+bad+"): the caller keeps a message the library is transmitting and will free")
+		}
+	}
 	fieldFrees(p, r, "C17.10/field-frees", func(rel string) bool {
 		return strings.HasPrefix(rel, "protocol/") || strings.HasPrefix(rel, "transport") || rel == "internal/core"
 	}, fieldFreeAllowed)
